@@ -72,6 +72,13 @@ def replay(rec):
     assign = {}
     for si, (d, pr) in enumerate(zip(final['stages'], probes)):
         assign.update(assign_stage(si, d, pr, o))
+    if md.get('pown'):
+        import casadi as _ca
+        from observe import locate
+        wl = locate(quiet(B.ocp.value, B.ocp._verif_pw), o.opti, o.pts)[0]
+        if wl is None: res.append(('C12.a:parentvar', 'mismatch', 'the parent variable is not a decision variable of the NLP'))
+        else:
+            o.ing[('0:w', 0, 0)] = wl; o.owner.setdefault(wl[0], ('0:w', 0, 0)); assign[('0:w', 0, 0)] = fl(probes[0]['pw'])
     xv, missing = set_x(o, assign)
     if missing: res.append(('C12.varmap', 'mismatch', 'not decision variables: %s' % missing[:6]))
     f, by_cid, recs = slacks_by_cid(o, xv)
@@ -119,6 +126,10 @@ def replay(rec):
         got = [abs(v) if iseq else v for r in rows for v in r['vals']]
         st, det = bag_compare_optional(got, [] if pc['const'] else [pc['s']], [[pc['s']]] if pc['const'] else [], absval=iseq)
         res.append(('C12.a:parent:' + pc['cid'], st, det[:200]))
+    # ---- no decision variable that belongs to no stage and is not the parent's own (stages without algebraic variables)
+    if not any(d['algs'] for d in final['stages']):
+        unowned = o.nx - len(o.owner)
+        res.append(('C12.a:vars', 'ok' if unowned == 0 else 'mismatch', '%d NLP decision variables correspond to no declared quantity of any stage' % unowned))
     # ---- objective = sum over stages + parent terms
     if isbad(pred['f']): res.append(('C12.c:f', 'inconclusive', ''))
     else: res.append(('C12.c:f', 'ok' if close(f, pred['f']) else 'mismatch', 'obs=%r pred=%s' % (f, Fr(*pred['f']))))
